@@ -2,7 +2,7 @@
 ID = 'C19'
 PROFILES = ['debug', 'release']
 THEOREMS = ['C19_uint_ok', 'C19_uint_short', 'C19_int_ok', 'C19_int_short', 'C19_bytevec_ok',
-            'C19_bytevec_short', 'C19_no_panic']
+            'C19_bytevec_short', 'C19_bytevec_any_length', 'C19_no_panic']
 RULE = ('exhaustive: every 1-byte and 2-byte pattern x {BE,LE} x {U,I} x cursor 0..2 of a padded buffer x every '
         'remaining length 0..w; boundary + random 32/64-bit patterns; ByteVecP with len 0..n+2. '
         'non-trivial = distinct case whose parse succeeds with a non-zero value or fails after the first half succeeded')
@@ -67,6 +67,13 @@ def cases(tier, rng):
             for cur in range(0, total + 1):
                 buf = ''.join('%02x' % rng.randrange(256) for _ in range(total))
                 more.append('bytes %d %s %d %s %s' % (ln, buf or '-', cur, 'aabb', 'ccddeeff0011'))
+    # ByteVecP with absurd lengths (a usize): must be EndOfBuffer with the cursor unmoved, never an overflow
+    for ln in (2 ** 64 - 1, 2 ** 64 - 2, 2 ** 63, 2 ** 63 - 1, 2 ** 32, 2 ** 31, 10 ** 9):
+        for total in (0, 1, 2, 5):
+            for cur in range(0, total + 1):
+                buf = ''.join('%02x' % rng.randrange(256) for _ in range(total))
+                more.append('bytes %d %s %d' % (ln, buf or '-', cur))
+                more.append('bytes %d %s %d %s %s' % (ln, buf or '-', cur, 'aabb', 'ccdd'))
     return out + more
 
 
